@@ -125,6 +125,65 @@ def _run_task(arg):
         return {"name": f"{pid}/{key}", "target": key, "status": "error", "message": f"{type(e).__name__}: {e}\n{traceback.format_exc()}", "obligations": [], "paths": 0, "solver_time": 0.0, "wall": 0.0, "source_hash": None, "used_contracts": [], "inlined": [], "queries": 0, "property": pid}
 
 
+def _pmap_child(fn, arg, conn):
+    try:
+        conn.send(fn(arg))
+    finally:
+        conn.close()
+
+
+def _pmap(fn, args, jobs, deadline_s, lost):
+    """`[fn(a) for a in args]`, each call in its own forked child, at most `jobs` at a time.  Unlike
+    `multiprocessing.Pool.map` it cannot hang: a child that dies (a solver crash) is retried once, a child that has
+    not answered after `deadline_s` wall seconds is killed; in both cases `lost(arg, why)` stands in for the result
+    (reported as NOT-GENERATED / not cross-checked -- never as a verdict on the property)."""
+    from multiprocessing.connection import wait
+
+    ctx = mp.get_context("fork")
+    todo = [(i, a, 0) for i, a in enumerate(args)]
+    results = [None] * len(args)
+    running = {}
+    while todo or running:
+        while todo and len(running) < jobs:
+            i, a, tries = todo.pop(0)
+            r, w = ctx.Pipe(duplex=False)
+            p = ctx.Process(target=_pmap_child, args=(fn, a, w))
+            p.start()
+            w.close()
+            running[i] = (p, r, time.time(), a, tries)
+        ready = set(wait([v[1] for v in running.values()], timeout=1.0))
+        for i, (p, r, t0, a, tries) in list(running.items()):
+            if r in ready:
+                try:
+                    results[i] = r.recv()
+                except (EOFError, OSError):
+                    p.join(10)
+                    if tries == 0:
+                        todo.append((i, a, 1))
+                    else:
+                        results[i] = lost(a, f"worker process died twice (exit code {p.exitcode})")
+                r.close()
+                p.join(10)
+                del running[i]
+            elif time.time() - t0 > deadline_s:
+                p.kill()
+                p.join(10)
+                r.close()
+                results[i] = lost(a, f"no result after {int(deadline_s)} s wall: worker killed")
+                del running[i]
+    return results
+
+
+def _task_deadline(tier):
+    return float(os.environ.get("PYVC_TASK_DEADLINE_S", 14400 if tier == "thorough" else 1800))
+
+
+def _lost_task(arg, why):
+    key, pid = arg[0], arg[1]
+    return {"name": f"{pid}/{key}", "target": key, "status": "lost", "message": why, "obligations": [], "paths": 0, "solver_time": 0.0, "wall": 0.0, "source_hash": None,
+            "used_contracts": [], "inlined": [], "queries": 0, "property": pid}
+
+
 def _run_bounded(pid, tier, seed, q):
     """Child process: run bounded/<pid>.run and send plain data back."""
     try:
@@ -158,9 +217,7 @@ def run_xcheck(pid, tier, seed, jobs=None):
     # the self-test programs get a seed that differs per property, so the 20 checks sample different inputs
     args = [(k, n_xc if "XC" in props_of(REGISTRY[k]) else n_own, seed * 1000 + sum(map(ord, pid))) for k in keys]
     jobs = jobs or min(16, len(args), os.cpu_count() or 4)
-    ctx = mp.get_context("fork")
-    with ctx.Pool(jobs) as pool:
-        return dict(pool.map(_run_xcheck, args, chunksize=1))
+    return dict(_pmap(_run_xcheck, args, jobs, _task_deadline(tier), lambda a, why: (a[0], {"status": "error", "cases": 0, "detail": why})))
 
 
 SKIPPED_TIER: dict = {}
@@ -191,9 +248,7 @@ def run_deductive(pid, tier, known, jobs=None, only=None):
     if jobs == 1:
         raw = [_run_task(a) for a in args]
     else:
-        ctx = mp.get_context("fork")
-        with ctx.Pool(jobs) as pool:
-            raw = pool.map(_run_task, args, chunksize=1)
+        raw = _pmap(_run_task, args, jobs, _task_deadline(tier), _lost_task)
     return _merge_shards(raw, keys)
 
 
@@ -380,7 +435,7 @@ def check_property(pid, tier="quick", seed=0, manifest_level="proof", jobs=None,
             cnt[o["status"]] = cnt.get(o["status"], 0) + 1
         functions.append({"function": r["target"], "source_sha256_16": r["source_hash"], "paths": r["paths"], "obligations": len(obs), "status": r["status"], "counts": cnt, "callee_contracts_used": r["used_contracts"], "inlined": r["inlined"], "solver_time_s": round(r["solver_time"], 3)})
         solver_time += r["solver_time"]
-        if r["status"] in ("unsupported", "stale", "error"):
+        if r["status"] in ("unsupported", "stale", "error", "lost"):
             not_generated.append({"function": r["target"], "status": r["status"], "message": r["message"][:500]})
             lines.append(f"NOT-GENERATED {r['target']}: {r['status']}: {r['message'].splitlines()[0] if r['message'] else ''}")
         per_name = {}
